@@ -143,6 +143,45 @@ fn run_src(vm: &mut VM<StdLibState>, name: &str, src: &str) -> Run {
     }
 }
 
+thread_local! {
+    /// What the JSON checkpoint saw of the parts of a VM that are "at rest" when a run has
+    /// returned (set by `checkpoint(.., Fmt::Json)`, read by `run_pair` on the same thread).
+    static AT_REST: std::cell::RefCell<Option<String>> = const { std::cell::RefCell::new(None) };
+}
+
+/// From the serialised VM: the input stack (`expansions` length and characters the lexer has not
+/// delivered, current source first), the pending `\\global` flag, and the position of every open
+/// `\\openin` stream inside its current line.
+fn at_rest_report(json: &str) -> Option<String> {
+    let part = |key: &str| -> Option<serde_json::Value> {
+        let i = json.find(&format!("\"{key}\": "))? + key.len() + 4;
+        serde_json::Deserializer::from_str(&json[i..]).into_iter::<serde_json::Value>().next()?.ok()
+    };
+    let left = |root: &serde_json::Value| -> u64 {
+        let r = &root["raw_lexer"];
+        let src = r["source_code"].as_str().map(|x| x.len() as u64).unwrap_or(0);
+        let line = r["current_line"].as_str().map(|x| x.chars().count() as u64).unwrap_or(0);
+        src.saturating_sub(r["next_line"].as_u64().unwrap_or(0)) + line.saturating_sub(r["pos"].as_u64().unwrap_or(0))
+    };
+    let internal = part("internal")?;
+    let mut stack = vec![];
+    let mut srcs = vec![internal["current_source"].clone()];
+    // `sources` is a Vec used as a stack: the last element is popped first
+    srcs.extend(internal["sources"].as_array()?.iter().rev().cloned());
+    for src in &srcs {
+        stack.push(format!("{} {}", src["expansions"].as_array().map(|a| a.len()).unwrap_or(0), left(&src["root"])));
+    }
+    let prefix = part("prefix")?;
+    let input = part("input")?;
+    let mut pos = vec![];
+    for f in input["files"].as_array()? {
+        if !f.is_null() {
+            pos.push(f["raw_lexer"]["pos"].as_u64().unwrap_or(u64::MAX).to_string());
+        }
+    }
+    Some(format!("{}|{}|{}|{}", stack.len(), stack.join(" "), prefix["scope"].as_str().unwrap_or("?"), pos.join(",")))
+}
+
 /// Error texts of the encoders → small classes (no positions, no numbers).
 fn enc_err(e: impl std::fmt::Display) -> String {
     let t = e.to_string();
@@ -158,6 +197,7 @@ fn checkpoint(vm: VM<StdLibState>, fmt: Fmt) -> Result<VM<StdLibState>, String> 
         Fmt::None => Ok(vm),
         Fmt::Json => flat(caught(|| {
             let s = serde_json::to_string_pretty(&vm).map_err(|e| format!("refused: cannot serialise ({})", enc_err(e)))?;
+            AT_REST.with(|r| *r.borrow_mut() = at_rest_report(&s));
             let mut d = serde_json::Deserializer::from_str(&s);
             VM::deserialize_with_built_in_commands(&mut d, built_ins()).map_err(|e| format!("refused: cannot deserialise ({})", enc_err(e)))
         })),
@@ -372,8 +412,31 @@ struct Obs {
     ck: Option<String>, // the checkpoint panicked
     /// the state right after the checkpoint (for A: right after P1)
     mid: BTreeMap<String, String>,
+    /// A only: name → index in the serialised macro table, as `SerializableMap::new` writes it
+    share: BTreeMap<String, u64>,
+    /// JSON run only: `at_rest_report` of the serialised VM
+    at_rest: Option<String>,
     r2: Option<Run>,
     fin: BTreeMap<String, String>,
+}
+
+/// Which index of the serialised macro table every macro name gets (control sequences by name,
+/// active characters by the character), read from the serialised command map.
+fn macro_share(vm: &VM<StdLibState>) -> BTreeMap<String, u64> {
+    let names = Names::of(vm);
+    let v = serde_json::to_value(&vm.commands_map).unwrap_or(serde_json::Value::Null);
+    let mut out = BTreeMap::new();
+    for (field, is_cs) in [("commands", true), ("active_char", false)] {
+        if let Some(bcont) = v.get(field).and_then(|c| c.get("backing_container")).and_then(|b| b.as_object()) {
+            for (k, c) in bcont {
+                if let Some(u) = c.get("Macro").and_then(|u| u.as_u64()) {
+                    let name = if is_cs { format!("\\{}", names.resolve(k.parse().unwrap_or(0))) } else { k.clone() };
+                    out.insert(name, u);
+                }
+            }
+        }
+    }
+    out
 }
 
 fn run_pair(p1: &str, p2: &str, fmt: Fmt) -> Obs {
@@ -381,16 +444,18 @@ fn run_pair(p1: &str, p2: &str, fmt: Fmt) -> Obs {
     let r1 = run_src(&mut vm, "p1.tex", p1);
     let none = BTreeMap::new;
     if !matches!(r1, Run::Ok(_)) {
-        return Obs { r1, ck: None, mid: none(), r2: None, fin: none() };
+        return Obs { r1, ck: None, mid: none(), share: BTreeMap::new(), at_rest: None, r2: None, fin: none() };
     }
+    let share = if fmt == Fmt::None { caught(|| macro_share(&vm)).unwrap_or_default() } else { BTreeMap::new() };
     let mut vm = match checkpoint(vm, fmt) {
         Ok(vm) => vm,
-        Err(p) => return Obs { r1, ck: Some(p), mid: none(), r2: None, fin: none() },
+        Err(p) => return Obs { r1, ck: Some(p), mid: none(), share, at_rest: None, r2: None, fin: none() },
     };
+    let at_rest = if fmt == Fmt::Json { AT_REST.with(|r| r.borrow_mut().take()) } else { None };
     let mid = caught(|| state_digests(&vm)).unwrap_or_default();
     let r2 = run_src(&mut vm, "p2.tex", p2);
     let fin = caught(|| state_digests(&vm)).unwrap_or_default();
-    Obs { r1, ck: None, mid, r2: Some(r2), fin }
+    Obs { r1, ck: None, mid, share, at_rest, r2: Some(r2), fin }
 }
 
 /// A and the three B runs, each on its own thread (a VM is not `Send`; its observation is).
@@ -913,6 +978,21 @@ fn gen_prim(rng: &mut Rng) -> i64 {
     }
 }
 
+/// Every `\\def` / `\\gdef` of a program gets its own body number: a body number then stands for
+/// one `Rc<Macro>` allocation (aliases made by `\\let` share it), which is what the serialiser's
+/// de-duplication is about.
+fn renumber_bodies(ops: &mut [MOp]) {
+    let mut next = 0;
+    for op in ops.iter_mut() {
+        if let MOp::Define { dk, a, .. } = op {
+            if *dk == 0 || *dk == 1 {
+                *a = next;
+                next += 1;
+            }
+        }
+    }
+}
+
 /// Reads prefer what the program has touched (a read of an undefined name is only observable
 /// as the last thing a program does).
 fn gen_read(rng: &mut Rng, seen_cmd: &[(i64, i64)], seen_var: &[(i64, i64)]) -> MOp {
@@ -993,6 +1073,7 @@ fn gen_ops(rng: &mut Rng, size: usize) -> Vec<MOp> {
         ops.push(MOp::End); // one `}` too many: an error after the checkpoint
     }
     reads(&mut ops, rng, &seen_cmd, &seen_var);
+    renumber_bodies(&mut ops);
     ops
 }
 
@@ -1065,6 +1146,56 @@ fn gen_layers(rng: &mut Rng) -> Vec<MOp> {
         ops.push(MOp::End);
         read_all(&mut ops);
     }
+    renumber_bodies(&mut ops);
+    ops
+}
+
+/// Macro sharing: 2..5 names (fresh, built-in, active) defined by `\\def`/`\\gdef` (every definition
+/// a fresh macro) and aliased to each other by `\\let` in chains, re-defined and re-aliased inside
+/// 0..2 groups that stay open at the checkpoint; then every name is read at every level. The
+/// sharing partition of the real serialised macro table is compared with the model's.
+fn gen_sharing(rng: &mut Rng) -> Vec<MOp> {
+    let n_names = rng.range(2, 5) as usize;
+    let mut names: Vec<(i64, i64)> = vec![];
+    while names.len() < n_names {
+        let t = match rng.below(4) {
+            0 => (0, 100 + *rng.pick(NAMED_PRIMS)),
+            1 => (1, rng.range(0, ACTIVE.len() as i64 - 1)),
+            _ => (0, rng.range(0, 4)),
+        };
+        if !names.contains(&t) {
+            names.push(t);
+        }
+    }
+    let mut ops = vec![];
+    let mut depth = 0;
+    for _ in 0..rng.range(3, 12) {
+        let (tk, tn) = *rng.pick(&names);
+        let pre = if depth > 0 && rng.chance(1, 5) { 1 } else { 0 };
+        match rng.below(10) {
+            0 if depth < 2 => {
+                ops.push(MOp::Begin);
+                depth += 1;
+            }
+            1..=4 => ops.push(MOp::Define { pre, tk, tn, dk: if rng.chance(1, 6) { 1 } else { 0 }, a: 0, b: 0 }),
+            _ => {
+                let (a, b) = *rng.pick(&names);
+                ops.push(MOp::Define { pre, tk, tn, dk: 9, a, b });
+            }
+        }
+    }
+    ops.push(MOp::Ckpt);
+    let read_all = |ops: &mut Vec<MOp>| {
+        for &(tk, tn) in &names {
+            ops.push(MOp::ReadCmd { tk, tn });
+        }
+    };
+    read_all(&mut ops);
+    for _ in 0..depth {
+        ops.push(MOp::End);
+        read_all(&mut ops);
+    }
+    renumber_bodies(&mut ops);
     ops
 }
 
@@ -1709,6 +1840,31 @@ impl C08 {
         }
         o.nontrivial = true;
         o.tag(format!("p2:{}", a.r2.as_ref().map(|r| r.class()).unwrap_or_default()));
+        // The state every checkpoint is taken in (`Props/C08.lean`: `run_returns_at_rest`,
+        // `reachable_scope_local`): the run returned, so the model's `next_unexpanded` on the real
+        // serialised input stack must say end of input; the pending \\global flag is Local; every
+        // open \\openin stream stands at the start of a line.
+        for (f, b) in &bs {
+            if let (Fmt::Json, Some(rep)) = (f, &b.at_rest) {
+                let parts: Vec<&str> = rep.split('|').collect();
+                if parts.len() == 4 {
+                    let verdict = drv.ask(&format!("instack {} {}", parts[0], parts[1]));
+                    o.tag(format!("at-rest-sources:{}", parts[0]));
+                    if verdict != "endOfInput" {
+                        o.fail(Kind::ImplVsModel, "at-rest", "the run returned but the model's next_unexpanded on the serialised input stack does not say end of input", format!("stack {} -> {verdict}", parts[1]));
+                    }
+                    if parts[2] != "Local" {
+                        o.fail(Kind::ImplVsModel, "at-rest", "pending \\global flag is not Local at a checkpoint", parts[2]);
+                    }
+                    if !parts[3].is_empty() {
+                        o.tag("at-rest-open-streams");
+                        if parts[3].split(',').any(|p| p != "0") {
+                            o.fail(Kind::ImplVsModel, "at-rest", "an open \\openin stream is not at the start of a line at a checkpoint", parts[3]);
+                        }
+                    }
+                }
+            }
+        }
         let wa = obs_words(&a);
         let mut diffs: Vec<(Fmt, Kind, String, String)> = vec![];
         for (f, b) in &bs {
@@ -1915,6 +2071,51 @@ impl C08 {
             }
         };
         check(&mut o, "before the checkpoint", a.r1.out(), &expect1, true);
+        // I vs M: macro sharing in the serialised map (the serialiser's macro table as coded):
+        // two names get the same table index in the real serialised map iff they do in the model
+        let bodies: Vec<i64> = ops.iter().filter_map(|o| if let MOp::Define { dk: 0 | 1, a, .. } = o { Some(*a) } else { None }).collect();
+        let unique_bodies = (1..bodies.len()).all(|i| !bodies[..i].contains(&bodies[i]));
+        if unique_bodies {
+            let mut sent2 = enc_ops(&prelude);
+            sent2.extend(&ints);
+            let reply = drv.ask(&format!("share {variant} {}", join(&sent2)));
+            if let Some(list) = reply.strip_prefix("ok") {
+                let mut pairs: Vec<(String, u64, Option<u64>)> = vec![]; // name, model index, real index
+                for w in list.split_ascii_whitespace() {
+                    let p: Vec<i64> = w.split('.').filter_map(|x| x.parse().ok()).collect();
+                    if p.len() == 3 {
+                        let name = target(p[0], p[1]);
+                        let real = a.share.get(&name).copied();
+                        pairs.push((name, p[2] as u64, real));
+                    }
+                }
+                if pairs.len() >= 2 {
+                    o.tag("share-compared");
+                }
+                let mut bad = None;
+                for (n, _, r) in &pairs {
+                    if r.is_none() {
+                        bad = Some(format!("{n} is a macro in the model's serialised map but not in the real one"));
+                    }
+                }
+                for i in 0..pairs.len() {
+                    for j in i + 1..pairs.len() {
+                        let (m_same, r_same) = (pairs[i].1 == pairs[j].1, pairs[i].2 == pairs[j].2);
+                        if m_same {
+                            o.tag("share-aliased-pair");
+                        }
+                        if m_same != r_same && bad.is_none() {
+                            bad = Some(format!("{} and {}: model {} one table entry, real code {}", pairs[i].0, pairs[j].0, if m_same { "share" } else { "do not share" }, if r_same { "shares" } else { "does not share" }));
+                        }
+                    }
+                }
+                if let Some(b) = bad {
+                    o.fail(Kind::ImplVsModel, "share", "macro sharing in the serialised map differs from the model", b);
+                }
+            } else if reply != "none" {
+                o.fail(Kind::ImplVsModel, "share", "model: serialiser as coded does not answer", reply);
+            }
+        }
         if let Some(r2) = &a.r2 {
             match (r2, model_err) {
                 (Run::Ok(out), None) => {
@@ -2150,6 +2351,10 @@ impl Property for C08 {
         let mut v = vec![];
         let (n_ops, n_layers, n_tex, n_codes, n_files, n_alloc, n_conds, n_macros, n_values) =
             if ctx.thorough { (2500, 1200, 2000, 1200, 900, 900, 500, 700, 700) } else { (180, 120, 150, 100, 90, 90, 50, 70, 70) };
+        let mut r = rng.fork();
+        for _ in 0..(if ctx.thorough { 700 } else { 70 }) {
+            v.push(format!("ops {}", join(&enc_ops(&gen_sharing(&mut r)))));
+        }
         let mut r = rng.fork();
         for _ in 0..n_macros {
             v.push(gen_macros(&mut r));
